@@ -111,6 +111,9 @@ class Registry:
 # ====================================================================== types
 
 def split_union(typ):
+    if isinstance(typ, list):
+        # explicit list of alternatives (each a type text, ('const', v) or ('make', fn, label))
+        return [a for t in typ for a in split_union(t)]
     if not isinstance(typ, str):
         return [typ]
     out, depth, cur = [], 0, ''
@@ -142,6 +145,8 @@ def fresh_typed(E, st, typ, name):
     """a fresh symbolic value of an atomic (non-union) type"""
     if isinstance(typ, tuple) and typ and typ[0] == 'const':
         return typ[1]
+    if isinstance(typ, tuple) and typ and typ[0] == 'make':
+        return typ[1](E, st, name)      # entry value built by the area module (e.g. a **kwargs dict with symbolic values)
     if not isinstance(typ, str):
         return typ                      # a concrete python value given directly
     alts = split_union(typ)
@@ -184,6 +189,11 @@ def fresh_typed(E, st, typ, name):
         return SOpaque(E.fresh(ANY, name), t[4:] if t.startswith('any:') else 'any')
     if t.startswith('obj:'):
         return fresh_object(E, st, t[4:], name)
+    if t.startswith('new:'):
+        # a blank instance (as handed to __init__): no fields yet
+        h = HObj('obj', cls=loader.find_class(t[4:]))
+        h.ghost_id = t[4:]
+        return st.alloc(h)
     m = re.match(r'^tuple\((.*)\)$', t)
     if m:
         parts = split_top(m.group(1), ',')
@@ -192,6 +202,20 @@ def fresh_typed(E, st, typ, name):
     if m:
         parts = [p for p in split_top(m.group(1), ',') if p.strip()]
         return st.alloc(HObj('list', items=[fresh_typed(E, st, p.strip(), '%s_%d' % (name, i)) for i, p in enumerate(parts)]))
+    m = re.match(r'^dict\((.*)\)$', t)
+    if m:
+        # keyword record with exactly these (string) keys: dict(key:bytes, iv:bytes[16]); `dict()` is the empty dict.
+        # Optional keys = a union of dict(...) alternatives at the top level of the parameter type.
+        items = {}
+        for p in split_top(m.group(1), ','):
+            if p.strip():
+                k, _, vt = p.partition(':')
+                items[k.strip()] = fresh_typed(E, st, vt.strip(), '%s_%s' % (name, k.strip()))
+        return st.alloc(HObj('dict', items=items))
+    m = re.match(r'^module:(.*)$', t)
+    if m:
+        # a module of the tree under verification as a value (e.g. the `factory` argument of the mode constructors)
+        return ModuleV(m.group(1), loader.load_module(m.group(1)))
     m = re.match(r'^const:(.*)$', t)
     if m:
         return ast.literal_eval(m.group(1))
@@ -260,7 +284,7 @@ def object_alternatives(E, qualclass):
 # ====================================================================== clause evaluation
 
 def preprocess(clause):
-    """`A ==> B` (lowest precedence, right associative) and `A <==> B` to function syntax"""
+    """`A ==> B` (lowest precedence, right associative) and `A <==> B` to function syntax, at every nesting level"""
     clause = clause.strip()
     for tok, fn in (('<==>', 'iff'), ('==>', 'implies')):
         parts = _split_token(clause, tok)
@@ -269,7 +293,42 @@ def preprocess(clause):
                 a, b = parts[0], tok.join(parts[1:])
                 return 'iff(%s, %s)' % (preprocess(a), preprocess(b))
             return 'implies(%s, %s)' % (preprocess(parts[0]), preprocess(tok.join(parts[1:])))
-    return clause
+    if '==>' not in clause:
+        return clause
+    # no arrow at this level: descend into bracketed groups
+    out, i, n = '', 0, len(clause)
+    in_str = None
+    while i < n:
+        ch = clause[i]
+        if in_str:
+            out += ch
+            if ch == in_str and clause[i - 1] != '\\':
+                in_str = None
+            i += 1
+            continue
+        if ch in '"\'':
+            in_str = ch
+            out += ch
+            i += 1
+            continue
+        if ch in '([{':
+            close = {'(': ')', '[': ']', '{': '}'}[ch]
+            depth, j = 1, i + 1
+            while j < n and depth:
+                if clause[j] in '([{':
+                    depth += 1
+                elif clause[j] in ')]}':
+                    depth -= 1
+                j += 1
+            inner = clause[i + 1:j - 1]
+            # comma-separated items are processed separately
+            items = split_top(inner, ',')
+            out += ch + ','.join(preprocess(x) if '==>' in x else x for x in items) + close
+            i = j
+            continue
+        out += ch
+        i += 1
+    return out
 
 
 def _split_token(s, tok):
@@ -491,14 +550,21 @@ def sf_ite(E, st, args, kw):
     raise Unsupported('ite on %r/%r' % (a, b))
 
 
+def _bytes_of(st, v):
+    """the current content of a bytearray reference, or the byte string itself"""
+    if isinstance(v, Ref) and st.heap[v.oid].kind == 'bytearray':
+        return st.heap[v.oid].items
+    return v
+
+
 def sf_be(E, st, args, kw):
     from .models import be_value
-    return [('val', st, mk_int(be_value(E, st, zbytes(args[0]))))]
+    return [('val', st, mk_int(be_value(E, st, zbytes(_bytes_of(st, args[0])))))]
 
 
 def sf_le(E, st, args, kw):
     from .models import le_value
-    return [('val', st, mk_int(le_value(E, st, zbytes(args[0]))))]
+    return [('val', st, mk_int(le_value(E, st, zbytes(_bytes_of(st, args[0])))))]
 
 
 def sf_i2osp(E, st, args, kw):
@@ -737,6 +803,7 @@ def _apply_bound(E, c, st, env, module, where):
                     results.append((s2, fresh_object(E, s2, a[4:], 'res', oa)))
             else:
                 results.append((s1, fresh_typed(E, s1, a, 'res_' + c.target.split('.')[-1])))
+    kept = 0
     for s1, rv in results:
         s1.frame.env['result'] = rv
         if isinstance(rv, Ref) and E.registry.classes.get(getattr(s1.heap[rv.oid], 'ghost_id', '')):
@@ -749,6 +816,11 @@ def _apply_bound(E, c, st, env, module, where):
         if not E.feasible(s1):
             continue
         outs.append(('val', s1, rv))
+        kept += 1
+    if results and not kept:
+        # the callee's postcondition is contradictory (or ill-defined: e.g. it reads a field that does not exist) in a
+        # reachable caller state: dropping the path silently would make the caller's proof vacuous
+        raise Unsupported('contract of %s cannot be satisfied at this call site (postcondition inconsistent or ill-defined there)' % c.target)
     return outs
 
 
